@@ -13,9 +13,10 @@ git apply $src/patch.diff
 if ! go build ./... 2>/tmp/wt/build-$name.log; then echo "RESULT $name: does not build"; git -C /repo worktree remove --force $W; exit 2; fi
 go test -vet=off -count=1 ./... > /tmp/wt/suite-$name.log 2>&1
 failed=$(grep "^--- FAIL" /tmp/wt/suite-$name.log | awk '{print $3}' | sort -u | tr '\n' ' ')
-if [ "$failed" = "TestCreateUpdateFetch " ]; then
-  # known wall-clock flake of the baseline suite (fails when time.Now()%300 is about 193..201): retry once
-  sleep 12; go test -vet=off -count=1 ./... > /tmp/wt/suite-$name.log 2>&1
+if [ "$failed" = "TestCreateUpdateFetch " ] || [ "$failed" = "TestCompatAllActions " ]; then
+  # known wall-clock flakes of the baseline suite (TestCreateUpdateFetch fails when time.Now()%300 is about 193..201;
+  # TestCompatAllActions compares two libraries that read the clock separately and fails around an hour boundary): retry once
+  sleep 75; go test -vet=off -count=1 ./... > /tmp/wt/suite-$name.log 2>&1
   failed=$(grep "^--- FAIL" /tmp/wt/suite-$name.log | awk '{print $3}' | sort -u | tr '\n' ' ')
 fi
 suite=$(echo $failed | wc -w)
